@@ -17,6 +17,7 @@ MInit(slice, tick) ==
      slice |-> slice, tick |-> tick, n0 |-> 0, b |-> [ctx |-> 0, susp |-> FALSE, wake |-> 0, clk |-> 0], inSlice |-> FALSE, lastEmpty |-> FALSE,
      born |-> [c \in 0..16 |-> Inf], died |-> [c \in 0..16 |-> Inf],
      snapGone |-> [c \in 0..16 |-> {}], snapFin |-> [c \in 0..16 |-> {}],
+     napEnd |-> [k \in Labels |-> 0],      \* requested wake-up time of the sleep a script announced (0: none)
      step |-> [k \in Labels |-> 0], ctxOf |-> [k \in Labels |-> 0], fin |-> [k \in Labels |-> FALSE], tdone |-> [k \in Labels |-> FALSE],
      viol |-> "", what |-> ""]
 
@@ -53,10 +54,13 @@ Step(mm, e) ==
             ELSE [mm EXCEPT !.s = EraseS(mm.s), !.died[mm.s.order[mm.s.cur]] = Len(mm.s.hist)]
           [] e.t = "mark" ->
             LET k == e.label
-                m1 == [mm EXCEPT !.step[k] = e.step, !.ctxOf[k] = e.ctx, !.fin[k] = e.last]
+                m1 == [mm EXCEPT !.step[k] = e.step, !.ctxOf[k] = e.ctx, !.fin[k] = e.last,
+                                 !.napEnd[k] = IF e.nap > 0 THEN e.clk + e.nap ELSE 0]
             IN IF ~mm.inSlice \/ mm.b.ctx # e.ctx THEN Fail(mm, "OnlyScheduledRuns", "statement of a script that holds no slice")
                ELSE IF e.step # mm.step[k] + 1 THEN Fail(mm, "Isolation", "own statement order broken")
                ELSE IF mm.tdone[k] THEN Fail(mm, "TerminateEffective", "terminated script executed a statement")
+               \* the statement before asked to sleep until napEnd (as written in the script): not resumed earlier
+               ELSE IF mm.napEnd[k] > 0 /\ e.clk + 2 * mm.tick < mm.napEnd[k] THEN Fail(mm, "NoEarlyWake", "resumed before the requested wake-up time")
                ELSE m1
           [] e.t = "poll" ->      \* the poll instruction executed now: remember what was true at this moment
             [mm EXCEPT !.snapGone[e.ctx] = { k \in Labels : mm.ctxOf[k] # 0 /\ mm.died[mm.ctxOf[k]] # Inf },
